@@ -55,6 +55,9 @@ def run_seed(seed, repo="/repo"):
         viol = rep.violations()
         keys = [r.key for r in viol]
         want = seed.get("expect")
+        if want == "SILENT":
+            # a behaviour-preserving edit: any report is a false alarm of the checker
+            return {"id": seed["id"], "status": "false-alarm" if keys else "silent-ok", "keys": keys[:6], "n": len(keys)}
         hit = [k for k in keys if (want is None or want in k)]
         return {"id": seed["id"], "status": "detected" if hit else ("detected-elsewhere" if keys else "missed"),
                 "keys": keys[:6], "n": len(keys)}
